@@ -159,7 +159,8 @@ def gen_c11(tier: str, rng: random.Random) -> Iterator[Dict[str, Any]]:
     # closing orders and disconnect codes
     for carrier in ("h1", "h2"):
         for order in ("client-1000", "client-1001-reason", "client-nocode", "app-first", "app-code-4000", "simultaneous",
-                      "eof", "reset", "client-close-then-eof"):
+                      "eof", "reset", "client-close-then-eof", "app-4001-client-echoes", "app-1008-client-echoes",
+                      "app-default-client-replies-empty", "app-default-client-replies-1001"):
             prog: List[Any] = [["recv"], ["send", {"type": "websocket.accept"}]]
             ws_steps: List[Dict[str, Any]] = []
             if order.startswith("client-"):
@@ -172,6 +173,15 @@ def gen_c11(tier: str, rng: random.Random) -> Iterator[Dict[str, Any]]:
                 prog += [["send", {"type": "websocket.close"}], ["recv_disc"]]
                 ws_steps.append({"s": "dt", "d": 0.01})
                 ws_steps.append({"s": "ws", "op": "close", "code": 1000})
+            elif order.startswith("app-") and "client-" in order:
+                code = {"app-4001": 4001, "app-1008": 1008}.get(order[:8])
+                msg = {"type": "websocket.close"}
+                if code:
+                    msg["code"] = code
+                prog += [["send", msg], ["recv_disc"]]
+                ws_steps.append({"s": "dt", "d": 0.01})
+                reply = code if order.endswith("echoes") else (None if order.endswith("empty") else 1001)
+                ws_steps.append({"s": "ws", "op": "close", "code": reply})
             elif order == "app-code-4000":
                 prog += [["send", {"type": "websocket.close", "code": 4000, "reason": "app"}], ["recv_disc"]]
             elif order == "simultaneous":
